@@ -38,6 +38,10 @@ type c16Case struct {
 	NestedSrc  string   `json:"nested_src,omitempty"`
 	NestedToks []c16Tok `json:"nested_toks,omitempty"`
 	NestedAt   []int    `json:"nested_at,omitempty"`
+	// Query: cyclic pattern saying at which interceptor invocations the two
+	// questions are asked at all (empty = at every invocation).  A plugin that
+	// asks only now and then must get the right answer too.
+	Query []bool `json:"query,omitempty"`
 }
 
 type c16Obs struct {
@@ -68,10 +72,14 @@ func c16Run(c c16Case, m Mode) (obs []c16Obs, final parser.ContextType, finalInF
 		if m.Smart {
 			pb.WithSmartSemicolon(true)
 		}
-		level, outerCalls := 0, 0
+		level, outerCalls, allCalls := 0, 0, 0
 		observe := func(kind string, p *parser.Parser) {
 			t := p.CurrentToken
-			obs = append(obs, c16Obs{level > 0, kind, t.Start.Line, t.Start.Column, t.Literal, p.IsInFunction(), p.CurrentContext()})
+			ask := len(c.Query) == 0 || c.Query[allCalls%len(c.Query)]
+			allCalls++
+			if ask {
+				obs = append(obs, c16Obs{level > 0, kind, t.Start.Line, t.Start.Column, t.Literal, p.IsInFunction(), p.CurrentContext()})
+			}
 			if level > 0 {
 				return
 			}
@@ -190,6 +198,9 @@ func c16Check(c c16Case, rec *evid.Recorder) *Fail {
 		if nestedSeen {
 			rec.Class("nested-parse-from-same-builder")
 		}
+		if len(c.Query) > 0 {
+			rec.Class("selective-queries")
+		}
 		rec.ClassN("interceptor-invocations", len(obs))
 	}
 	if !c.Valid {
@@ -232,6 +243,11 @@ func c16Gen(t *rapid.T, rec *evid.Recorder) c16Case {
 		return c
 	}
 	c.Toks = c16Table(toks)
+	if r.Bool("selective") {
+		for i, n := 0, 2+r.Intn(11, "qlen"); i < n; i++ {
+			c.Query = append(c.Query, r.Intn(4, "ask") == 0)
+		}
+	}
 	if r.Intn(3, "nested") == 0 {
 		// a snippet with its own nesting, parsed by a second parser of the same builder
 		ng := &gen.Syn{R: r, MaxDepth: 2, StmtDepth: 1 + r.Intn(3, "nsdepth")}
